@@ -574,11 +574,42 @@ func (ts *TermStore) IAdd(a, b *Term) *Term {
 	if a.IsConst() {
 		a, b = b, a
 	}
+	// byte reassembly: M*div(y,M) + mod(y,M) => y   (M > 0 constant, Euclidean div/mod)
+	if r := ts.reassemble(a, b); r != nil {
+		return r
+	}
+	if r := ts.reassemble(b, a); r != nil {
+		return r
+	}
 	t := ts.intern(&Term{Op: OAdd, S: IntSort, Args: []*Term{a, b}})
 	if t.lo == nil && t.hi == nil {
 		t.lo, t.hi = addB(a.lo, b.lo), addB(a.hi, b.hi)
 	}
 	return t
+}
+
+// divOf views t as div(x, c) with c a positive constant (c = 1 when t is not a division).
+func divOf(t *Term) (*Term, *big.Int) {
+	if t.Op == ODiv && t.Args[1].IsConst() && t.Args[1].I.Sign() > 0 {
+		return t.Args[0], t.Args[1].I
+	}
+	return t, big.NewInt(1)
+}
+
+func (ts *TermStore) reassemble(a, b *Term) *Term {
+	if a.Op != OMul || !a.Args[1].IsConst() || a.Args[1].I.Sign() <= 0 {
+		return nil
+	}
+	m := a.Args[1].I
+	if b.Op != OMod || !b.Args[1].IsConst() || b.Args[1].I.Cmp(m) != 0 {
+		return nil
+	}
+	xh, ch := divOf(a.Args[0])
+	xb, cb := divOf(b.Args[0])
+	if xh != xb || ch.Cmp(new(big.Int).Mul(cb, m)) != 0 {
+		return nil
+	}
+	return ts.IDiv(xb, ts.IntBig(cb))
 }
 
 func (ts *TermStore) ISub(a, b *Term) *Term {
@@ -637,6 +668,10 @@ func (ts *TermStore) IDiv(a, b *Term) *Term {
 	}
 	if b.IsConst() && b.I.IsInt64() && b.I.Int64() == 1 {
 		return a
+	}
+	// div(div(x,c1),c2) => div(x,c1*c2) for positive constants (floor division)
+	if b.IsConst() && b.I.Sign() > 0 && a.Op == ODiv && a.Args[1].IsConst() && a.Args[1].I.Sign() > 0 {
+		return ts.IDiv(a.Args[0], ts.IntBig(new(big.Int).Mul(a.Args[1].I, b.I)))
 	}
 	t := ts.intern(&Term{Op: ODiv, S: IntSort, Args: []*Term{a, b}})
 	if t.lo == nil && t.hi == nil && b.IsConst() && b.I.Sign() > 0 && a.lo != nil && a.hi != nil {
